@@ -8,7 +8,8 @@ RULE = ("case = (generator type, construction path, jds, sizes, build callbacks,
         "permutations); motif shapes {bare edge, 0, 1, 2, 3, k edges; tuple-of-tuples, list-of-tuples, edges as lists} "
         "x {homogeneous, per-edge names}; exhaustive small family (N<=2 with column sums <=3 and N<=3 with sums <=2 in quick; N<=2 sums <=4 and N<=3 sums <=3 in thorough; <=2 topologies/orbits, all permutations, every "
         "builder that accepts the motif size) + seeded random (N<=12, <=4 orbits) + malformed stream; compared: the "
-        "three columns entry by entry, callback calls, joint_degrees; the DESIGN section-3 replay is corpus entry 1. "
+        "three columns entry by entry, callback calls, joint_degrees; a share of the random cases are histories (2-3 "
+        "generations on the same algorithm object / jds list, returned object damaged in between); the DESIGN section-3 replay is corpus entry 1. "
         "Non-trivial = valid case with >=2 motif instances of which one has >=2 edges or is a bare edge; distinct by "
         "(type, jds, sizes, builders, names, indices, pis)")
 EXHAUSTIVE = {"quick": True, "thorough": True}
@@ -90,53 +91,70 @@ def generate(rng, tier):
         yield G.random_valid_case(rng, [G.MOTIFS, G.FAST, G.MOTIFS, G.NETWORK][i % 4], maxN=12, maxT=4)
     for i in range(n // 4):
         yield G.malformed_case(rng, [G.MOTIFS, G.FAST, G.MOTIFS, G.NETWORK][i % 4])
+    # histories: several generations on ONE algorithm object and ONE jds list (stale ids, shared lists, caches)
+    for i in range(n // 2):
+        yield G.history_case(rng, [G.MOTIFS, G.FAST, G.MOTIFS, G.NETWORK][i % 4])
 
 
 def impl(case):
-    return G.impl_single(case)
+    return G.impl_case(case)
 
 
 def model_calls(case, impl_obs):
-    return [("c02_run", G.model_tree(case))]
+    return G.model_calls_case("c02_run", case)
 
 
 def model_obs(case, raws):
-    return G.decode_run(raws[0])
+    return G.model_obs_case(raws)
 
 
 def compare(case, impl_obs, model):
-    return G.compare_run(case, impl_obs, model)
+    return G.compare_case(case, impl_obs, model)
+
+
+VACUOUS = [0, [], [], [], [], []]      # c02_check answers 1 on it
 
 
 def check_calls(case, impl_obs):
-    calls = [("c01_check", G.c01_check_tree(case, impl_obs if isinstance(impl_obs, dict) else ["!exc", "x"]))]
-    if isinstance(impl_obs, dict):
-        t = G.c02_check_tree(case, impl_obs)
-        if t is not None:
-            calls.append(("c02_check", t))
+    """two checker calls per step: c01_check (are the hypotheses met?) and c02_check on the columns"""
+    steps = G.steps_of(case)
+    calls = []
+    for i, st in enumerate(steps):
+        o = impl_obs["steps"][i] if isinstance(impl_obs, dict) else ["!exc", "x"]
+        calls.append(("c01_check", G.c01_check_tree(st, o)))
+        t = G.c02_check_tree(st, o) if isinstance(o, dict) else None
+        calls.append(("c02_check", t if t is not None else VACUOUS))
     return calls
 
 
 def check_verdict(case, impl_obs, raws):
-    valid = bool(raws) and raws[0] != 2 and G.config_total(case)
-    if not valid:
-        return None            # handshake / configuration hypotheses not met: nothing claimed
+    steps = G.steps_of(case)
+    total = G.config_total(case)
+    valid = [bool(raws) and raws[2 * i] != 2 and total for i in range(len(steps))]
     if G.is_exc(impl_obs):
-        return "implementation raised %s on a valid input" % impl_obs[1]
-    if len(raws) < 2:
-        return None            # network variant with a repeated vertex pair: correspondence only
-    if raws[1] == 1:
+        if all(valid):
+            return "implementation raised %s on a valid input" % impl_obs[1]
         return None
-    return ("c02_check rejected the observed columns (lengths %d/%d/%d; parallel columns, pair entries, one block "
-            "per callback call with its edges / names / a private id)" % (
-                len(impl_obs.get("edges", [])), len(impl_obs.get("names", [])), len(impl_obs.get("ids", []))))
+    for i, o in enumerate(impl_obs["steps"]):
+        if not valid[i]:
+            continue           # handshake / configuration hypotheses not met: nothing claimed
+        if raws[2 * i + 1] != 1:
+            where = "" if len(steps) == 1 else " (call %d of %d on the same algorithm object)" % (i + 1, len(steps))
+            return ("c02_check rejected the observed columns%s (lengths %d/%d/%d; parallel columns, pair entries, one "
+                    "block per callback call with its edges / names / a private id)" % (
+                        where, len(o.get("edges", [])), len(o.get("names", [])), len(o.get("ids", []))))
+    return None
 
 
 def nontrivial_key(case, impl_obs):
-    if not isinstance(impl_obs, dict) or "kind" in case or len(impl_obs["results"]) < 2:
+    if not isinstance(impl_obs, dict) or "kind" in case:
         return None
-    if any(sh and (sh[0] == 1 or (sh[0] == 0 and len(sh[1]) >= 2)) for _, sh in impl_obs["results"]):
-        return [case["tag"], case["jds"], case["sizes"], case["codes"], case["names"], case.get("mis"), case["pis"]]
+    res = [r for o in impl_obs["steps"] for r in o["results"]]
+    if len(res) < 2:
+        return None
+    if any(sh and (sh[0] == 1 or (sh[0] == 0 and len(sh[1]) >= 2)) for _, sh in res):
+        return [case["tag"], case.get("jds"), case["sizes"], case["codes"], case["names"], case.get("mis"),
+                case.get("pis"), case.get("steps")]
     return None
 
 
@@ -147,8 +165,9 @@ def shrink(case):
 def describe(case, impl_obs):
     d = G.describe_case(case, impl_obs)
     d["names"] = case["names"]
-    if isinstance(impl_obs, dict) and "edges" in impl_obs:
-        d["columns"] = [impl_obs["edges"][:8], impl_obs["names"][:8], impl_obs["ids"][:8]]
+    if isinstance(impl_obs, dict) and "edges" in impl_obs["steps"][0]:
+        o = impl_obs["steps"][0]
+        d["columns"] = [o["edges"][:8], o["names"][:8], o["ids"][:8]]
     return d
 
 
